@@ -26,6 +26,7 @@ import (
 	"verif/harness/internal/core"
 	"verif/harness/internal/fsx"
 	"verif/harness/internal/memdev"
+	"verif/harness/internal/rawfat"
 	"verif/harness/internal/tlc"
 )
 
@@ -60,13 +61,22 @@ func c11Entries(links bool) []fsx.Entry {
 func c11Build(obj, dir string) (*c11Base, error) {
 	b := &c11Base{obj: obj, sect: 512}
 	switch obj {
-	case "fat12", "fat16", "fat32", "ext4":
-		v, err := fsx.CreateMutable(obj, fsx.Opt{Size: c11Sizes[obj], Label: "VERIF"})
+	case "fat12", "fat16", "fat32", "ext4", "fat16x":
+		kind := strings.TrimSuffix(obj, "x")
+		v, err := fsx.CreateMutable(kind, fsx.Opt{Size: c11Sizes[kind], Label: "VERIF"})
 		if err != nil {
 			return nil, err
 		}
-		if err := fsx.Populate(v.FS, c11Entries(obj == "ext4")); err != nil {
+		es := append(c11Entries(obj == "ext4"), fsx.Entry{Path: "EMPTY.DAT"})
+		if err := fsx.Populate(v.FS, es); err != nil {
 			return nil, err
+		}
+		if obj == "fat16x" {
+			// the form other tools (mkfs.fat, mtools, Linux vfat) give an empty file: size 0, first cluster 0,
+			// no cluster allocated - the library's own writer always allocates one
+			if err := c11ForeignEmpty(v.Dev, v.Size); err != nil {
+				return nil, fmt.Errorf("foreign-form empty file: %w", err)
+			}
 		}
 		b.dev, b.size, b.fsObj = v.Dev, v.Size, true
 		b.dev.SetSize(b.size)
@@ -131,6 +141,50 @@ func c11Build(obj, dir string) (*c11Base, error) {
 		}
 	}
 	return b, nil
+}
+
+// c11ForeignEmpty rewrites the directory entry of EMPTY.DAT on a FAT16 volume at offset 0 to first cluster
+// 0 and frees the cluster the library had given it in both FAT copies.
+func c11ForeignEmpty(d *memdev.Dev, size int64) error {
+	v, err := rawfat.Parse(d, 0, size)
+	if err != nil {
+		return err
+	}
+	var first uint32
+	for _, e := range v.Entries {
+		if strings.EqualFold(strings.TrimPrefix(e.Path, "/"), "EMPTY.DAT") {
+			first = e.First
+		}
+	}
+	if first < 2 {
+		return fmt.Errorf("EMPTY.DAT not found by the independent parser (first cluster %d)", first)
+	}
+	rootOff := int64(v.Reserved+v.NumFATs*int(v.FATSectors)) * int64(v.BPS)
+	root := d.Bytes(rootOff, int64(v.RootEntries)*32)
+	at := int64(-1)
+	for i := 0; i+32 <= len(root); i += 32 {
+		if string(root[i:i+11]) == "EMPTY   DAT" {
+			at = rootOff + int64(i)
+		}
+	}
+	if at < 0 {
+		return fmt.Errorf("directory entry of EMPTY.DAT not found in the root directory")
+	}
+	d.Poke(at+20, []byte{0, 0})
+	d.Poke(at+26, []byte{0, 0})
+	for k := 0; k < v.NumFATs; k++ {
+		d.Poke(int64(v.Reserved+k*int(v.FATSectors))*int64(v.BPS)+int64(first)*2, []byte{0, 0})
+	}
+	v2, err := rawfat.Parse(d, 0, size)
+	if err != nil {
+		return err
+	}
+	for _, e := range v2.Entries {
+		if strings.EqualFold(strings.TrimPrefix(e.Path, "/"), "EMPTY.DAT") && e.First == 0 && e.Size == 0 {
+			return nil
+		}
+	}
+	return fmt.Errorf("patched entry not seen by the independent parser")
 }
 
 func c11Table(kind string, alt bool) partition.Table {
@@ -240,7 +294,7 @@ func c11Open(b *c11Base, route string, variant int, work string) (*c11Obj, error
 		}
 	}
 	if b.fsObj {
-		f, err := fsx.OpenBackend(b.obj, st, b.size, 0, b.sect)
+		f, err := fsx.OpenBackend(strings.TrimSuffix(b.obj, "x"), st, b.size, 0, b.sect)
 		if err != nil {
 			return nil, err
 		}
@@ -378,6 +432,15 @@ func c11Do(o *c11Obj, b *c11Base, op string) (res string) {
 			} else {
 				res = "err"
 			}
+		case "ReadEmpty":
+			f, err := fs.OpenFile("EMPTY.DAT", os.O_RDONLY)
+			if err != nil {
+				e(err)
+				return
+			}
+			_, err = fsx.ReadAll(f, 1<<20)
+			e(err)
+			f.Close()
 		case "Label":
 			_ = fs.Label()
 		case "Partition":
@@ -429,7 +492,7 @@ func fileSHA(p string) string {
 }
 
 func C11(c *core.Ctx) {
-	c.Rule = "case = one call sequence of ReadOnly.tla on one (object, route): objects FAT12/16/32, ext4, ISO9660, squashfs volumes and GPT / MBR disks with a FAT32 partition (also: primary GPT array damaged, image shorter than its last partition); routes: backend created read-only, backend whose Writable() fails over storage that would accept writes, read-only backend over a real file whose descriptor is writable (length and modification time compared after every call), image file opened read-only by path (OpenFromPath / diskfs.Open(ReadOnly)), and read-write (reads must still not write; finalized ISO/squashfs must still refuse); calls: 13 mutating and 6 reading filesystem entry points, 5 + 3 disk entry points (CreateFilesystem as FAT32, FAT16 and ext4); every sequence of length <= D (quick 2, thorough 3) enumerated by TLC; after every call: result class, image bytes changed, WriteAt attempts that reached the device, and the view through the LIVE object compared with the view before the call; non-trivial = every sequence (distinct key = object/route/sequence)"
+	c.Rule = "case = one call sequence of ReadOnly.tla on one (object, route): objects FAT12/16/32 (also a FAT16 volume holding an empty file in the form other tools write it: first cluster 0), ext4, ISO9660, squashfs volumes and GPT / MBR disks with a FAT32 partition (also: primary GPT array damaged, image shorter than its last partition); routes: backend created read-only, backend whose Writable() fails over storage that would accept writes, read-only backend over a real file whose descriptor is writable (length and modification time compared after every call), image file opened read-only by path (OpenFromPath / diskfs.Open(ReadOnly)), and read-write (reads must still not write; finalized ISO/squashfs must still refuse); calls: 13 mutating and 7 reading filesystem entry points, 5 + 3 disk entry points (CreateFilesystem as FAT32, FAT16 and ext4); every sequence of length <= D (quick 2, thorough 3) enumerated by TLC; after every call: result class, image bytes changed, WriteAt attempts that reached the device, and the view through the LIVE object compared with the view before the call; non-trivial = every sequence (distinct key = object/route/sequence)"
 	c.Assumptions = []string{"on the path route the kernel enforces O_RDONLY; the image file is hashed at the end of the sequence", "view = full tree walk with content hashes, link targets and label (filesystems) or partition table plus the listing of partition 1 (disks)"}
 	mc, err := tlcRun("ReadOnly_MC", "ReadOnly_MC.cfg")
 	if err != nil || !mc.OK {
@@ -487,7 +550,7 @@ func C11(c *core.Ctx) {
 	defer os.RemoveAll(work)
 	bases := map[string]*c11Base{}
 	baseSHA := map[string]string{}
-	for _, o := range []string{"fat12", "fat16", "fat32", "ext4", "iso", "squashfs", "gpt", "mbr", "gptbad", "mbrshort"} {
+	for _, o := range []string{"fat12", "fat16", "fat32", "fat16x", "ext4", "iso", "squashfs", "gpt", "mbr", "gptbad", "mbrshort"} {
 		b, err := c11Build(o, work)
 		if err != nil {
 			c.Broken("base %s: %v", o, err)
